@@ -42,6 +42,7 @@ type action struct {
 	K      int    `json:"k,omitempty"`
 	Revoke bool   `json:"revoke,omitempty"` // lapse by revoking the status lease instead of deleting the key
 	TTL    int64  `json:"ttl,omitempty"`    // report with a lease
+	Fail   bool   `json:"fail,omitempty"`   // lapse: the SetNode call of the handler it triggers fails (injected)
 }
 
 type slotObs struct {
@@ -67,6 +68,8 @@ type clusterW struct {
 	lists     int
 	reads     int
 	setNodes  map[string]int // completed SetNode calls per node
+	failNode  string         // the next SetNode for this node fails (once)
+	failed    int            // injected failures delivered
 	hold      chan struct{}  // non-nil: NodeStatusStream waits for it
 	holdReach chan struct{}  // closed when a held stream call arrived
 }
@@ -93,6 +96,14 @@ func (c *clusterW) GetNodeStatus(ctx context.Context, n string) (*types.NodeStat
 func (c *clusterW) SetNode(ctx context.Context, o *types.SetNodeOptions) (*types.Node, error) {
 	c.enter()
 	defer c.leave()
+	c.mu.Lock()
+	if c.failNode != "" && c.failNode == o.Nodename {
+		c.failNode = ""
+		c.failed++
+		c.mu.Unlock()
+		return nil, types.ErrNodeNotExists // injected: what a failing store step looks like to selfmon
+	}
+	c.mu.Unlock()
 	n, err := c.Cluster.SetNode(ctx, o)
 	c.mu.Lock()
 	if err == nil {
@@ -375,6 +386,30 @@ func runHistory(t *testing.T, name string, acts []action) (res result) {
 				if expect {
 					before = x.active.cw.setNodeCount(nodeName(a.Node))
 				}
+				if a.Fail && expect {
+					aw := x.active
+					aw.cw.mu.Lock()
+					aw.cw.failNode = nodeName(a.Node)
+					f0 := aw.cw.failed
+					aw.cw.mu.Unlock()
+					expect = false
+					defer func() {
+						// wait until the injected failure has been delivered (or 12 s), then disarm
+						deadline := time.Now().Add(12 * time.Second)
+						for time.Now().Before(deadline) {
+							aw.cw.mu.Lock()
+							done := aw.cw.failed > f0
+							aw.cw.mu.Unlock()
+							if done {
+								break
+							}
+							time.Sleep(10 * time.Millisecond)
+						}
+						aw.cw.mu.Lock()
+						aw.cw.failNode = ""
+						aw.cw.mu.Unlock()
+					}()
+				}
 				delete(aliveNow, a.Node)
 				defer0 := func() {
 					if !expect {
@@ -586,6 +621,9 @@ func coqAction(a action) string {
 	case "heartbeat":
 		return fmt.Sprintf("(AHeartbeat %d)", a.Node)
 	case "lapse":
+		if a.Fail {
+			return fmt.Sprintf("(ALapseFail %d)", a.Node)
+		}
 		return fmt.Sprintf("(ALapse %d)", a.Node)
 	case "create":
 		return fmt.Sprintf("(ACreate %d)", a.Node)
@@ -675,6 +713,7 @@ func lapseInStartWindow(acts []action) bool {
 func an(i int) action                   { return action{Kind: "addnode", Node: i} }
 func hb(i int) action                   { return action{Kind: "heartbeat", Node: i} }
 func lapse(i int) action                { return action{Kind: "lapse", Node: i} }
+func lapseFail(i int) action            { return action{Kind: "lapse", Node: i, Fail: true} }
 func lapseRevoke(i int) action          { return action{Kind: "lapse", Node: i, Revoke: true} }
 func create(i int) action               { return action{Kind: "create", Node: i} }
 func report(w int, r, h bool) action    { return action{Kind: "report", W: w, R: r, H: h} }
@@ -699,6 +738,8 @@ func corpus() []hist {
 		{"lapse-in-start-window", []action{an(0), an(1), create(0), create(1), report(0, true, true), report(1, true, true), startHeld, lapse(0), release(0), lapse(1), stop(0), start}},
 		{"expire-reacquire", []action{an(0), an(1), create(0), create(1), report(0, true, true), report(1, true, true), start, expire(0), lapse(0), lapse(1)}},
 		{"held-second-watcher", []action{an(0), an(1), create(0), create(1), report(0, true, true), report(1, true, true), start, startHeld, lapse(0), stop(0), lapse(1), release(1)}},
+		// a failing SetNode is logged and not retried: the workloads stay up until another activation
+		{"handler-fails", []action{an(0), an(1), create(0), create(1), report(0, true, true), report(1, true, true), start, lapseFail(0), lapse(1), hb(0), lapse(0)}},
 		{"handover", []action{an(0), an(1), an(2), create(0), create(1), create(2), report(0, true, true), report(1, true, true), report(2, true, true), start, start, lapse(1), stop(0), lapse(2), lapse(0)}},
 	}
 }
@@ -741,6 +782,7 @@ func (g gen) history(name string, n int) hist {
 		case r < 74:
 			a := lapse(node)
 			a.Revoke = g.rng.Intn(2) == 0
+			a.Fail = g.rng.Intn(8) == 0
 			acts = append(acts, a)
 			delete(alive, node)
 		case r < 90:
@@ -845,6 +887,6 @@ func TestC28(t *testing.T) {
 	if dropped*4 > len(hs) {
 		thin = fmt.Sprintf("THIN COVERAGE: %d of %d histories dropped because the machine was too loaded (timers > 400 ms late); ", dropped, len(hs))
 	}
-	r.Finish(thin + "corpus (6 histories incl. the start-window witness, lock expiry, hand-over to a held watcher) then random histories of 7-12 steps over 3 nodes, <=6 workloads, <=2 watchers " +
-		"(create | report | heartbeat | lapse by delete or lease revoke | start | start held | release | expire | stop); non-trivial = some workload ends reported down")
+	r.Finish(thin + "corpus (7 histories incl. the start-window witness, lock expiry, hand-over to a held watcher, an injected SetNode failure) then random histories of 7-12 steps over 3 nodes, <=6 workloads, <=2 watchers " +
+		"(create | report | heartbeat | lapse by delete or lease revoke, 1 in 8 with the handler's SetNode failing | start | start held | release | expire | stop); non-trivial = some workload ends reported down")
 }
